@@ -40,6 +40,9 @@ type ExprKV struct {
 type Local struct {
 	Name string `json:"name"`
 	Expr Expr   `json:"expr"`
+	// Override: re-declares a local of an earlier block with a DIFFERENT value (blocks are evaluated in order:
+	// from the next block on, and in every attribute, the name means the later value)
+	Override bool `json:"override,omitempty"`
 }
 
 // LocalsBlock is one `locals {}` block. Its expressions see the locals of the
